@@ -1,7 +1,8 @@
 import SafeC.Proofs.AccTok
+import SafeC.Proofs.AccJustify
 import SafeC.Props.C02Ext3
 /-!
-# C02 for functions that write as they scan: `strset_s strnset_s strzero_s wcsset_s wcsnset_s strtok_s wcstok_s`
+# C02 for functions that write as they scan: `strset_s strnset_s strzero_s wcsset_s wcsnset_s strljustify_s strtok_s wcstok_s`
 
 Through `AccS` (value-aware, stores tracked): reads lie in the STRING at dest cut at `dmax + 1` cells — the one
 cell behind the declared ones only when no terminator precedes it —, writes inside the `dmax` declared cells
@@ -95,6 +96,21 @@ theorem wcsnset_s_C02_partial (cfg : Cfg) (dest dmax value n : Nat) (db : Bos) (
   by_cases e : n = dmax
   · exact StrRd.of_RD_term (RD_of_RW (hw h)) (ht h e) _
   · exact StrRd.of_RD (RD_of_RW (hw h)) (by omega)
+
+/-! ## strljustify_s -/
+
+/-- **strljustify_s**: the termination scan `while (*dest) { if (dmax == 0) … }` reads at most `dest[dmax]` (and accepts a
+terminator found there); the whitespace skip and the shift loop stay below that terminator; every store inside `dmax` -/
+theorem strljustify_s_C02_tight_partial (cfg : Cfg) (dest dmax : Nat) (db : Bos) (st : St)
+    (hr : dest ≠ 0 → StrRd st dest (dmax+1)) (hw : dest ≠ 0 → RW st dest dmax) :
+    Runs (strljustify_s cfg dest dmax db) st :=
+  runs_of_AccS (strljustify_s_accs cfg dest dmax db hr (fun h => Wr_of_RW (hw h)))
+
+/-- **strljustify_s**, C02 for a dest terminated inside `dmax` -/
+theorem strljustify_s_C02_partial (cfg : Cfg) (dest dmax : Nat) (db : Bos) (st : St)
+    (hw : dest ≠ 0 → RW st dest dmax) (ht : dest ≠ 0 → Term st dest dmax) :
+    Runs (strljustify_s cfg dest dmax db) st :=
+  strljustify_s_C02_tight_partial cfg dest dmax db st (fun h => StrRd.of_RD_term (RD_of_RW (hw h)) (ht h) _) hw
 
 /-! ## the tokenizers (`tokBuf dest pv`: the buffer scanned — `dest`, or the saved `*ptr` when `dest` is NULL) -/
 
